@@ -45,11 +45,10 @@ Definition Act (cfg : config) (p : wpc) (j : job) : Prop :=
   (j_consumed j < j_size j \/ (j_size j = 0 /\ j_csize j = 0 /\ j_ckneed j = false)) /\
   match p with WChunk c => 1 <= c /\ c < nb_chunks cfg (j_size j) | _ => True end.
 
-(* a slot that holds no job in flight *)
-Definition Stale (j : job) : Prop := j_err j = false /\ j_csize j = 0 /\ j_ckneed j = false /\ j_consumed j = j_size j.
-(* a job prepared by ZSTDMT_createCompressionJob and not yet posted *)
-Definition PrepJ (j : job) : Prop :=
-  j_consumed j = 0 /\ j_csize j = 0 /\ j_err j = false /\ (j_size j = 0 -> j_ckneed j = false).
+(* a slot that holds no job in flight: its last job ended without error, was consumed and flushed completely (cSize reset), the
+   checksum was appended, the output buffer went back to the pool -- or the slot was never used / was cleared (job0) *)
+Definition Stale (j : job) : Prop :=
+  j_err j = false /\ j_csize j = 0 /\ j_ckneed j = false /\ j_consumed j = j_size j /\ j_dst j = false.
 
 Definition inflight (s : state) (i : N) : Prop := done (mt s) <= i /\ i < next (mt s).
 
@@ -64,18 +63,24 @@ Definition relphase (p : cpc) : bool := match p with CWait _ | CWaitZ _ | CRelAl
 Definition prepared (s : state) : Prop :=
   ready (mt s) = true \/ awake (c_pc (cl s)) = CTryAdd \/ awake (c_pc (cl s)) = CGetBuf.
 
-(* slot(next) holds the prepared job *)
+(* slot(next) holds a job prepared by ZSTDMT_createCompressionJob and not yet posted; the ring is not full *)
+Definition PrepSlot0 (cfg : config) (s : state) : Prop :=
+  let j := getj s (slot cfg (next (mt s))) in
+  next (mt s) < done (mt s) + Mr cfg /\ j_id j = next (mt s) /\ j_consumed j = 0 /\ j_csize j = 0 /\ j_err j = false.
+(* ... and it is a job for a pool thread (an empty one is the first job of its frame: no checksum to append) *)
 Definition PrepSlot (cfg : config) (s : state) : Prop :=
-  next (mt s) < done (mt s) + Mr cfg /\ j_id (getj s (slot cfg (next (mt s)))) = next (mt s) /\ PrepJ (getj s (slot cfg (next (mt s)))).
+  let j := getj s (slot cfg (next (mt s))) in
+  PrepSlot0 cfg s /\ (j_size j = 0 -> j_ckneed j = false) /\ j_done j = false /\ (j_last j = true -> ended (mt s) = true).
 
 Definition PcInv (cfg : config) (s : state) : Prop :=
   let m := mt s in let p := awake (c_pc (cl s)) in
-  (p = CTryAdd -> PrepSlot cfg s /\ j_done (getj s (slot cfg (next m))) = false) /\
-  (p = CGetBuf -> PrepSlot cfg s /\ j_done (getj s (slot cfg (next m))) = true) /\
+  (p = CTryAdd -> PrepSlot cfg s) /\
+  (p = CGetBuf -> PrepSlot0 cfg s /\ j_done (getj s (slot cfg (next m))) = true /\ ready m = false /\
+                  j_size (getj s (slot cfg (next m))) = 0 /\ j_last (getj s (slot cfg (next m))) = true /\ ended m = true) /\
   (relphase p = false ->
      (forall k, (k < N.to_nat (Mr cfg))%nat -> (forall i, inflight s i -> slot cfg i <> k) ->
                 Stale (getj s k) \/ (k = slot cfg (next m) /\ prepared s)) /\
-     (ready m = true -> alldone m = false -> PrepSlot cfg s /\ j_done (getj s (slot cfg (next m))) = false)) /\
+     (ready m = true -> alldone m = false -> PrepSlot cfg s)) /\
   (match p with CRelAll _ _ | CInitBuf | CInitSeq => done m = next m | CWait _ | CWaitZ _ | CRelBuf => done m < next m | _ => True end) /\
   (p = CRelBuf -> let j := getj s (slot cfg (done m)) in
                   j_err j = false /\ j_consumed j = j_size j /\ 0 < j_csize j /\ j_ckneed j = false /\ j_done j = true) /\
@@ -95,14 +100,6 @@ Record KInv (cfg : config) (s : state) : Prop := mkK {
   k_own : forall i, inflight s i -> j_done (getj s (slot cfg i)) = false -> owned s (slot cfg i);
   k_pc : PcInv cfg s }.
 
-Definition cfg_ok (cfg : config) : Prop := 1 <= c_rlog cfg /\ 0 < c_chunk cfg.
-
-Lemma Mr_ge2 cfg : cfg_ok cfg -> 2 <= Mr cfg.
-Proof.
-  intros (H & _). unfold Mr. replace (c_rlog cfg) with (1 + (c_rlog cfg - 1)) by lia.
-  rewrite N.pow_add_r. pose proof (N.pow_nonzero 2 (c_rlog cfg - 1)). change (2 ^ 1) with 2. lia.
-Qed.
-
 (* ------------------------------------------------------------------ *)
 (* transformations that preserve the invariant                          *)
 
@@ -120,7 +117,7 @@ Lemma kinv_ext cfg s s' :
   KInv cfg s -> KInv cfg s'.
 Proof.
   intros Hm Hj Hw Hq Hp [H1 H2 H3 H4 H5 H6 H7 H8 H9].
-  constructor; unfold inflight, owned, getj, PcInv, PrepSlot, prepared, inflight, getj in *; rewrite ?Hm, ?Hj, ?Hw, ?Hq, ?Hp; auto.
+  constructor; unfold inflight, owned, getj, PcInv, PrepSlot, PrepSlot0, prepared, inflight, getj in *; rewrite ?Hm, ?Hj, ?Hw, ?Hq, ?Hp; auto.
 Qed.
 
 Lemma kinv_set_sr cfg x s : KInv cfg s -> KInv cfg (set_sr x s).
@@ -175,16 +172,18 @@ Proof.
   assert (Hsl : forall i', ~ inflight s i' -> next (mt s) < done (mt s) + Mr cfg \/ True -> True) by auto.
   assert (Hnx : next (mt s) < done (mt s) + Mr cfg -> getj (set_job (slot cfg i) jb' s) (slot cfg (next (mt s))) = getj s (slot cfg (next (mt s)))).
   { intros Hlt. apply getj_set_job_neq. apply inflight_not_next; auto. }
+  assert (Hps0 : PrepSlot0 cfg s -> PrepSlot0 cfg (set_job (slot cfg i) jb' s)).
+  { intros P0. pose proof P0 as (P1 & _). unfold PrepSlot0 in *. cbn [mt set_job set_jobs]. cbn zeta in *. rewrite Hnx by auto. exact P0. }
   assert (Hps : PrepSlot cfg s -> PrepSlot cfg (set_job (slot cfg i) jb' s)).
-  { intros (P1 & P2 & P3). unfold PrepSlot. cbn [mt set_job set_jobs]. rewrite Hnx by auto. auto. }
+  { intros (P0 & P2). pose proof P0 as (P1 & _). unfold PrepSlot. cbn [mt set_job set_jobs]. cbn zeta in *. rewrite Hnx by auto. split; auto. }
   refine (conj _ (conj _ (conj (fun Hrel => conj _ _) (conj _ (conj _ (conj _ _)))))).
-  - intros Hp. destruct (A Hp) as (A1 & A2). split; auto. rewrite Hnx; auto. apply A1.
-  - intros Hp. destruct (B Hp) as (A1 & A2). split; auto. rewrite Hnx; auto. apply A1.
+  - intros Hp. apply Hps, A, Hp.
+  - intros Hp. destruct (B Hp) as (B0 & B1 & B2). pose proof B0 as (P1 & _). split; [apply Hps0, B0|]. rewrite Hnx by auto. auto.
   - intros k Hk Hnin. destruct (C Hrel) as (C1 & _).
     assert (k <> slot cfg i) by (intro; subst; eapply Hnin; eauto).
     rewrite getj_set_job_neq by auto.
     destruct (C1 k Hk) as [?|(? & ?)]; auto.
-  - intros Hr Ha. destruct (C Hrel) as (_ & C2). destruct (C2 Hr Ha) as (A1 & A2). split; auto. rewrite Hnx; auto. apply A1.
+  - intros Hr Ha. destruct (C Hrel) as (_ & C2). apply Hps, C2; auto.
   - exact D.
   - intros Hp. specialize (E Hp). cbn zeta in E. cbn zeta.
     destruct (Nat.eq_dec (slot cfg i) (slot cfg (done (mt s)))) as [Es|Es].
@@ -424,3 +423,117 @@ Proof.
   intros H Hp. unfold wake_serial. rewrite nth_error_map, H. cbn. destruct (w_pc w) eqn:E; try reflexivity. congruence.
 Qed.
 
+(* like kinv_act0, the Act obligation only for the job of the thread *)
+Lemma kinv_act1 cfg s t w w' :
+  KInv cfg s -> nth_error (ws s) t = Some w -> active (w_pc w) = true -> active (w_pc w') = true -> w_slot w' = w_slot w ->
+  (Act cfg (w_pc w) (getj s (w_slot w)) -> Act cfg (w_pc w') (getj s (w_slot w))) ->
+  KInv cfg (set_w t w' s).
+Proof.
+  intros K Hw Ha Ha' Hs Hact.
+  destruct (k_wrk _ _ K t w Hw Ha) as (i & Hi & Hk & Hact0).
+  assert (Hkl : (w_slot w < length (jobs s))%nat) by (rewrite Hk, (k_len _ _ K); apply slot_lt).
+  rewrite <- (set_job_same s (w_slot w) Hkl) at 1. eapply kinv_act; eauto.
+Qed.
+
+Lemma set_w_wake_job cfg k t w' s : set_w t w' (wake_caller_job cfg k s) = wake_caller_job cfg k (set_w t w' s).
+Proof.
+  unfold wake_caller_job. cbn [cl set_w set_ws mt].
+  destruct (c_pc (cl s)); try reflexivity; destruct (Nat.eqb _ _); reflexivity.
+Qed.
+
+Lemma kinv_worker_step cfg t s s' : 0 < c_chunk cfg -> KInv cfg s -> worker_step cfg t s = Some s' -> KInv cfg s'.
+Proof.
+  intros Hch K H. unfold worker_step in H.
+  destruct (nth_error (ws s) t) as [w|] eqn:Hw; [|discriminate].
+  destruct (w_pc w) eqn:Epc; try discriminate.
+  - (* WIdle *)
+    destruct (q (pl s)) as [sl|] eqn:Eq.
+    + destruct (Nat.leb (c_nbw cfg) (busy (pl s))); inv_some H.
+      * apply kinv_inact with (w := w); auto; rewrite ?Epc; reflexivity.
+      * eapply kinv_pop with (w := w) (k := sl); eauto; rewrite ?Epc; reflexivity.
+    + inv_some H. apply kinv_inact with (w := w); auto; rewrite ?Epc; reflexivity.
+  - (* WGetCCtx *)
+    inv_some H. apply kinv_act0 with (w := w); try apply kinv_set_pl; auto; rewrite ?Epc; try reflexivity.
+    + destruct (sp_on (pl s)); [reflexivity|]. unfold after_getseq; cbn. destruct (_ || _); reflexivity.
+    + destruct (sp_on (pl s)); [reflexivity|]. unfold after_getseq; cbn. destruct (_ || _); reflexivity.
+    + intros j Hj. eapply act_nochunk; eauto. destruct (sp_on (pl s)); cbn; auto. unfold after_getseq; cbn. destruct (_ || _); cbn; auto.
+  - (* WGetSeq *)
+    inv_some H. apply kinv_act0 with (w := w); try apply kinv_set_pl; auto; rewrite ?Epc; try reflexivity.
+    + unfold after_getseq; cbn. destruct (w_cctx w); reflexivity.
+    + unfold after_getseq; cbn. destruct (w_cctx w); reflexivity.
+    + intros j Hj. eapply act_nochunk; eauto. unfold after_getseq; cbn. destruct (w_cctx w); cbn; auto.
+  - (* WGetBuf *)
+    assert (K1 : KInv cfg (set_pl (pl_bp (take (bp_nb (pl s))) (pl s)) s)) by (apply kinv_set_pl; auto).
+    destruct (k_wrk _ _ K t w Hw) as (i & Hi & Hk & Hact0); [rewrite Epc; reflexivity|].
+    destruct (negb _).
+    + inv_some H. apply kinv_act0 with (w := w); auto; rewrite ?Epc; try reflexivity.
+      intros j Hj. eapply act_nochunk; eauto. cbn; auto.
+    + assert (Hj : forall p', match p' with WChunk _ => False | _ => True end ->
+                   Act cfg p' (j_set_dst true (getj s (w_slot w)))).
+      { intros p' Hp'. destruct Hact0 as (A & B & C). repeat split; auto. destruct p'; auto; contradiction. }
+      repeat match type of H with (if ?b then _ else _) = _ => destruct b end; inv_some H;
+      (eapply kinv_act with (w := w) (s := set_pl (pl_bp (take (bp_nb (pl s))) (pl s)) s); eauto; rewrite ?Epc; try reflexivity; apply Hj; cbn; auto).
+  - (* WJobErr *)
+    destruct (k_wrk _ _ K t w Hw) as (i & Hi & Hk & Hact0); [rewrite Epc; reflexivity|].
+    inv_some H. eapply kinv_act with (w := w); eauto; rewrite ?Epc; try reflexivity.
+    destruct Hact0 as (A & B & C). repeat split; auto.
+  - (* WSerial *)
+    destruct (_ <? _).
+    + inv_some H. apply kinv_act0 with (w := w); auto; rewrite ?Epc; try reflexivity.
+      intros j Hj. eapply act_nochunk; eauto. cbn; auto.
+    + inv_some H.
+      match goal with |- KInv cfg (set_w t ?w' ?s2) =>
+        assert (K2 : KInv cfg s2 /\ nth_error (ws s2) t = Some w /\ (forall k0, getj s2 k0 = getj s k0)) end.
+      { destruct (_ && ldm (mt s)).
+        - split; [apply kinv_wake_ldm, kinv_set_sr, kinv_wake_serial; auto|].
+          match goal with |- nth_error (ws (wake_caller_ldm ?x)) _ = _ /\ _ =>
+            destruct (wake_ldm_proj x) as (_ & Ej & _ & _ & Ew & _); rewrite Ew end.
+          split; [|intros k0; unfold getj at 1; rewrite Ej; reflexivity].
+          cbn [ws jobs set_sr set_ws]. apply wake_serial_self; auto. rewrite Epc; discriminate.
+        - split; [apply kinv_set_sr, kinv_wake_serial; auto|]. split; [|intros k0; reflexivity]. cbn [ws jobs set_sr set_ws].
+          apply wake_serial_self; auto. rewrite Epc; discriminate. }
+      destruct K2 as (K2 & Hw2 & Hj2).
+      apply kinv_act1 with (w := w); auto; rewrite ?Epc; try reflexivity.
+      * unfold after_serial. match goal with |- context[if ?b then _ else _] => destruct b end; [reflexivity|]. apply next_chunk_props; lia.
+      * unfold after_serial. match goal with |- context[if ?b then _ else _] => destruct b end; [reflexivity|]. apply next_chunk_props; lia.
+      * rewrite (Hj2 (w_slot w)). intros Hj.
+        unfold after_serial. match goal with |- context[if ?b then _ else _] => destruct b end; [eapply act_nochunk; eauto; cbn; auto|].
+        destruct Hj as (A & B & C). apply next_chunk_props; auto; lia.
+  - (* WChunk *)
+    destruct (k_wrk _ _ K t w Hw) as (i & Hi & Hk & Hact0); [rewrite Epc; reflexivity|].
+    inv_some H. rewrite set_w_wake_job. apply kinv_wake_job.
+    rewrite Epc in Hact0. destruct Hact0 as (A & B & C1 & C2).
+    pose proof (nb_chunks_lt cfg k (j_size (getj s (w_slot w))) Hch C2) as Hlt.
+    eapply kinv_act with (w := w); eauto; rewrite ?Epc; try reflexivity.
+    + apply next_chunk_props; lia.
+    + apply next_chunk_props; lia.
+    + apply next_chunk_props; try lia; cbn; auto.
+  - (* WEnsure *)
+    inv_some H.
+    match goal with |- KInv cfg (set_w t ?w' ?s2) =>
+      assert (K2 : KInv cfg s2 /\ nth_error (ws s2) t = Some w) end.
+    { destruct (_ <=? _).
+      - split; [apply kinv_wake_ldm, kinv_set_sr, kinv_wake_serial; auto|].
+        match goal with |- nth_error (ws (wake_caller_ldm ?x)) _ = _ =>
+          destruct (wake_ldm_proj x) as (_ & _ & _ & _ & Ew & _); rewrite Ew end.
+        cbn [ws set_sr set_ws]. apply wake_serial_self; auto. rewrite Epc; discriminate.
+      - split; auto. }
+    destruct K2 as (K2 & Hw2).
+    apply kinv_act0 with (w := w); auto; rewrite ?Epc; try reflexivity.
+    + unfold after_ensure. destruct (w_seq w); [reflexivity|]. destruct (w_cctx w); reflexivity.
+    + unfold after_ensure. destruct (w_seq w); [reflexivity|]. destruct (w_cctx w); reflexivity.
+    + intros j Hj. eapply act_nochunk; eauto. unfold after_ensure. destruct (w_seq w); cbn; auto. destruct (w_cctx w); cbn; auto.
+  - (* WRelSeq *)
+    inv_some H. apply kinv_act0 with (w := w); try apply kinv_set_pl; auto; rewrite ?Epc; try reflexivity.
+    + destruct (w_cctx w); reflexivity.
+    + destruct (w_cctx w); reflexivity.
+    + intros j Hj. eapply act_nochunk; eauto. destruct (w_cctx w); cbn; auto.
+  - (* WRelCCtx *)
+    inv_some H. apply kinv_act0 with (w := w); try apply kinv_set_pl; auto; rewrite ?Epc; try reflexivity.
+    intros j Hj. eapply act_nochunk; eauto. cbn; auto.
+  - (* WReport *)
+    inv_some H. rewrite set_w_wake_job. apply kinv_wake_job.
+    eapply kinv_rep with (w := w); eauto; rewrite ?Epc; reflexivity.
+  - (* WFinish *)
+    inv_some H. apply kinv_inact with (w := w); try apply kinv_set_pl; auto; rewrite ?Epc; reflexivity.
+Qed.
